@@ -867,7 +867,7 @@ class MempoolFamily(SubsFamily):
                 at = round(rng.uniform(0, at_max), 3) if at_max else 0
                 r = rng.random()
                 if r < 0.5:
-                    plan.append(dict(op='mp_add', n=rng.choice([1, 2, 3, 6, 12, 30]),
+                    plan.append(dict(op='mp_add', n=rng.choice([1, 2, 3, 6, 12, 30, 30, 120, 260]),
                                      chain=rng.choice([0.0, 0.5, 0.95]), at=at, seed=rng.getrandbits(32)))
                 elif r < 0.6:
                     plan.append(dict(op='mp_evict', k=rng.randrange(30), at=at))
